@@ -320,6 +320,12 @@ fn fndef_j<'tcx>(
     }
     o.put("args", ga);
     o.put("kind", J::s(&format!("{:?}", tcx.def_kind(d))));
+    if matches!(tcx.def_kind(d), DefKind::Fn | DefKind::AssocFn) {
+        let sig = tcx.fn_sig(d).instantiate_identity().skip_norm_wip();
+        if sig.safety().is_unsafe() {
+            o.put("unsafe_fn", J::b(true));
+        }
+    }
     if matches!(tcx.def_kind(d), DefKind::AssocFn) {
         if let Some(ai) = tcx.opt_associated_item(d) {
             let c = ai.container_id(tcx);
